@@ -226,6 +226,12 @@ def layout(r, uni=False):
             lines += [imp(r) for _ in range(r.randint(1, 2))]
     elif k < 0.56:
         lines += [r.choice(["b'bytes first'", "# c\nb'x'", "b'x'\n'y'"])]
+    elif k < 0.62:
+        # empty / whitespace-only docstrings: ast.get_docstring gives '' (or blanks), not None
+        lines += [r.choice(['""', "\'\'\'\'\'\'", '"   "', '"" ""', 'r""', "u\'\'", '"""\n"""', '# c\n""', '""  # trailing',
+                            '"" \'\' """"""', '"\\\n"'])]
+        if r.random() < .6:                                    # no import block in front of the first use: a new block is created
+            lines.append(r.choice(["os.x", "n.y", "a", "x = 1", "c.z; d"]))
     if r.random() < 0.04:                                  # prologue-only file
         src = '\n'.join(lines)
         return src + ('\n' if r.random() < .7 else '')
